@@ -362,7 +362,7 @@ def units(ctx: Ctx, only=None):
         Unit("recv.sync", "recv.sync", cases, impl_sync, prop_pred=pred_sync),
         Unit("recv.async", "recv.async", acases, impl_async, prop_pred=pred_sync),
         Unit("recv.sync2", "recv.sync2", c2, impl_sync2, prop_pred=pred2),
-        Unit("recv.async2", "recv.async2", c2 if ctx.thorough else c2[:: 3], impl_async2, prop_pred=pred2),
+        Unit("recv.async2", "recv.async2", c2, impl_async2, prop_pred=pred2),
     ]
 
 
